@@ -71,9 +71,9 @@ void bn_make(bn_t a, size_t digits) {
 #endif /* ALIGN */
 	}
 
-	if (a->dp == NULL) {
-		free((void *)a);
+	if (a == NULL || a->dp == NULL) {
 		RLC_THROW(ERR_NO_MEMORY);
+		return;
 	}
 #else
 	/* Verify if the number of digits is sane. */
